@@ -47,7 +47,7 @@ def pid_lists(rng, c, pmt_pid):
 def gen(rng, tier):
     out = []
     quick = tier == "quick"
-    n = 70 if quick else 2000
+    n = 160 if quick else 2000
     carriers = [L.rand_carrier(rng, crc="computed", allow_pre=False, small=(i % 5 == 4)) for i in range(n)]
     for c in carriers:
         style = rng.choice(["none", "few", "fill", "many"])
